@@ -11,14 +11,14 @@ A *location* `Loc` is a node together with its position in the tree (the frames 
 root: left siblings nearest first, parent id/name, right siblings), i.e. exactly what the C++ reaches through
 `getParentNode / getPreviousSibling / getNextSibling / getFirstChild`.
 
-Whether a text node is stripped is a parameter `sp : Option QName → String → Bool` (parent element name,
+Whether a text node is stripped is a parameter `sp : Option Tag → String → Bool` (parent element name,
 character data) — `stripOf` instantiates it with the stylesheet's testers, the theorems hold for any `sp`.
 Core Lean only.
 -/
 namespace XalanModel.C13
 
 inductive Node where
-  | elem (id : Nat) (name : Option QName) (kids : List Node)
+  | elem (id : Nat) (name : Option Tag) (kids : List Node)
   | text (id : Nat) (data : String)
   | comment (id : Nat) (data : String)
   | pi (id : Nat) (target : String) (data : String)
@@ -31,7 +31,7 @@ def Node.id : Node → Nat
   | .pi i _ _ => i
 
 /-- strip decision for text children of an element named `pn` -/
-abbrev StripFn := Option QName → String → Bool
+abbrev StripFn := Option Tag → String → Bool
 
 def noStrip : StripFn := fun _ _ => false
 
@@ -39,7 +39,7 @@ def noStrip : StripFn := fun _ _ => false
 def stripOf (ws : List Tester) : StripFn := fun pn d => shouldStrip ws pn (isWsString d)
 
 /-- is this child of an element named `pn` a stripped text node? -/
-def Node.stripped (sp : StripFn) (pn : Option QName) : Node → Bool
+def Node.stripped (sp : StripFn) (pn : Option Tag) : Node → Bool
   | .text _ d => sp pn d
   | _ => false
 
@@ -50,7 +50,7 @@ def Node.strip (sp : StripFn) : Node → Node
   | .text i d => .text i d
   | .comment i d => .comment i d
   | .pi i t d => .pi i t d
-def Node.stripKids (sp : StripFn) (pn : Option QName) : List Node → List Node
+def Node.stripKids (sp : StripFn) (pn : Option Tag) : List Node → List Node
   | [] => []
   | k :: ks =>
     if k.stripped sp pn then Node.stripKids sp pn ks
@@ -60,7 +60,7 @@ end
 structure Frame where
   left : List Node            -- preceding siblings, nearest first
   pid : Nat                   -- the parent element
-  pname : Option QName
+  pname : Option Tag
   right : List Node           -- following siblings, nearest first
 deriving Repr, Inhabited
 
@@ -88,12 +88,12 @@ def Loc.strip (sp : StripFn) (l : Loc) : Loc :=
 
 /-- locations of the nodes `rest`, whose already passed left siblings are `left` (nearest first), children
 of element `(pid, pname)` located at `path` -/
-def sibsRight (pid : Nat) (pname : Option QName) (path : List Frame) : List Node → List Node → List Loc
+def sibsRight (pid : Nat) (pname : Option Tag) (path : List Frame) : List Node → List Node → List Loc
   | _, [] => []
   | left, k :: ks => ⟨k, ⟨left, pid, pname, ks⟩ :: path⟩ :: sibsRight pid pname path (k :: left) ks
 
 /-- locations of the nodes `rest` (nearest first) to the left, `right` being what lies to the right of them -/
-def sibsLeft (pid : Nat) (pname : Option QName) (path : List Frame) : List Node → List Node → List Loc
+def sibsLeft (pid : Nat) (pname : Option Tag) (path : List Frame) : List Node → List Node → List Loc
   | [], _ => []
   | k :: ks, right => ⟨k, ⟨ks, pid, pname, right⟩ :: path⟩ :: sibsLeft pid pname path ks (k :: right)
 
@@ -133,7 +133,7 @@ mutual
 def descNode (path : List Frame) : Node → List Loc
   | .elem i n kids => descKids i n path [] kids
   | _ => []
-def descKids (pid : Nat) (pname : Option QName) (path : List Frame) : List Node → List Node → List Loc
+def descKids (pid : Nat) (pname : Option Tag) (path : List Frame) : List Node → List Node → List Loc
   | _, [] => []
   | left, k :: ks =>
     (⟨k, ⟨left, pid, pname, ks⟩ :: path⟩ :: descNode (⟨left, pid, pname, ks⟩ :: path) k)
@@ -172,7 +172,7 @@ def Node.textOf (sp : StripFn) : Node → String
   | .text _ d => d
   | .comment _ _ => ""
   | .pi _ _ _ => ""
-def Node.textOfKids (sp : StripFn) (pn : Option QName) : List Node → String
+def Node.textOfKids (sp : StripFn) (pn : Option Tag) : List Node → String
   | [] => ""
   | k :: ks => (if k.stripped sp pn then "" else k.textOf sp) ++ Node.textOfKids sp pn ks
 end
